@@ -487,6 +487,13 @@ printf("debug> macros_parse() param count=%d\n", param_count);
     // Tabs :(.
     if (ch == '\t') { ch = ' '; }
 
+    // chr(1) marks a parameter in the stored text.
+    if (ch == 1)
+    {
+      print_error(asm_context, "Illegal character 0x01 in macro");
+      return -1;
+    }
+
     if (quote != 0)
     {
       if (ch == '\n' || ch == EOF) { quote = 0; }
